@@ -56,7 +56,7 @@ def y_case(draw):
 
 class C01(Prop):
   id = "C01"
-  quick_examples = 1500
+  quick_examples = 4000
   thorough_examples = 20000
   rule = ("Hypothesis-generated charts (random forests of 1-12 states biased to depth, and "
           "deep two-branch 'Y' charts with chained initial transitions) x start state x event "
